@@ -248,6 +248,16 @@ class Ref:
             return states
         if k == "probe":
             return [st]
+        if k == "project":
+            env2 = dict(env)
+            for n in g[1]:
+                env2[n] = self.walk_star(env[n], st[0])
+            return self.conj([x for x in g[2:]], env2, st, depth)
+        if k == "sq":
+            u = self.term(g[1], env)
+            if u[0] == "a" and u[1].lstrip("-").isdigit():
+                return self.do_eq(("a", str(int(u[1]) * int(u[1]))), self.term(g[2], env), st)
+            return []
         raise Unsupported("goal %r" % (k,))
 
     def pat_names(self, p, out=None):
